@@ -163,9 +163,21 @@ func dumpRx(n ast.Node, out *[]string) {
 // the driver (vlib.run_impl) then re-runs that line in a fresh worker. A hang kills only the worker.
 var lexrxHung = false
 
+// LEXRX_BUDGET_MS overrides the per-operation budget (the check re-runs a timed-out input alone with 30 s
+// before it calls it a hang: a first timeout on a loaded machine proves nothing)
+var lexrxBudget = func() time.Duration {
+	if n, err := strconv.Atoi(os.Getenv("LEXRX_BUDGET_MS")); err == nil && n > 0 {
+		return time.Duration(n) * time.Millisecond
+	}
+	return 0
+}()
+
 func withBudget(d time.Duration, f func() string) string {
 	if lexrxHung {
 		os.Exit(3)
+	}
+	if lexrxBudget > 0 {
+		d = lexrxBudget
 	}
 	ch := make(chan string, 1)
 	go func() {
